@@ -170,6 +170,51 @@ theorem C20_fence_cases_as_written :
   simp only [C20_is_code_fence_close_as_written, C20_code_fence_delimiter_as_written, Except.ok.injEq]
   decide
 
+/-! #### the `active_set` discipline of the two `expand_*` functions as written
+
+`recursive_skeleton` / `tokens_skeleton` (generated) are the bodies of `expand_mechdown_includes_recursive` and
+`expand_mechdown_include_tokens` reduced to the events on `active_set` and the exits; `Exec` (Model/IncludeIR.lean) runs
+a skeleton without interpreting conditions, the callees keeping the contract proved here for the other function. -/
+
+/-- `expand_mechdown_includes_recursive` as written, entered with `active_set = a`: it never falls off its end, every
+    `Ok` return hands the set back as `a` (every exit after the insert that is not an error removes the file again),
+    and `expand_mechdown_include_tokens` is only ever called with the set `p :: a` — which is the model's
+    `expandFile fs n (p :: active)` for the children and `active` again for the siblings (the stack discipline behind
+    `C20_diamond_ok`).  Errors are not caught anywhere: they are `?`-propagated to `expand_mechdown_includes`, whose set
+    is dropped. -/
+theorem C20_recursive_restores_active_set (p : Path) (a : List Path) (k : Exit) (s' : List Path)
+    (log : List (List Path)) (h : Exec p recursive_skeleton a k s' log) :
+    k ≠ .normal ∧ k ≠ .cont ∧ (k = .retOk → s' = a) ∧ (∀ x ∈ log, x = p :: a) :=
+  discipline_sound p a recursive_skeleton C20_active_set_discipline_as_written.1 h
+
+/-- `expand_mechdown_include_tokens` as written: every `Ok` return leaves the set as it was (the contract
+    `Exec.tokens_ok` assumes), and it never calls itself. -/
+theorem C20_tokens_restores_active_set (p : Path) (a : List Path) (k : Exit) (s' : List Path)
+    (log : List (List Path)) (h : Exec p tokens_skeleton a k s' log) :
+    k ≠ .normal ∧ k ≠ .cont ∧ (k = .retOk → s' = a) ∧ log = [] := by
+  have := discipline_sound p a tokens_skeleton C20_active_set_discipline_as_written.2 h
+  exact ⟨this.1, this.2.1, this.2.2.1, noTokensCalls_log p (sk := tokens_skeleton) (by decide) h⟩
+
+/-- the check has teeth: an early `return Ok(…)` between the insert and the remove is rejected, and such a body really
+    can return with the file still in the set (the seeded change that made diamonds "circular"). -/
+theorem C20_discipline_rejects_early_return (p : Path) (a : List Path) (hp : p ∉ a) :
+    let bad : Skel := .seq (.ev .guardActive) (.seq (.ev .insert)
+      (.seq (.branch (.ev .returnOk) .skip) (.seq (.ev .remove) (.ev .returnOk))))
+    disciplineOk bad = false ∧ Exec p bad a .retOk (p :: a) [] := by
+  refine ⟨by decide, ?_⟩
+  exact Exec.seq_normal _ _ _ _ _ _ [] [] (Exec.guard_out a hp)
+    (Exec.seq_normal _ _ _ _ _ _ [] [] (Exec.insert a)
+      (Exec.seq_abrupt _ _ _ _ _ _ (Exec.branch_then _ _ _ _ _ _ (Exec.returnOk _)) (by decide)))
+
+/-- … and so are a missing guard, a missing remove, an insert after the expansion, and a call whose error is caught. -/
+theorem C20_discipline_rejects_other_changes :
+    disciplineOk (.seq (.ev .insert) (.seq (.ev .callTokens) (.seq (.ev .remove) (.ev .returnOk)))) = false ∧
+    disciplineOk (.seq (.ev .guardActive) (.seq (.ev .insert) (.seq (.ev .callTokens) (.ev .returnOk)))) = false ∧
+    disciplineOk (.seq (.ev .guardActive) (.seq (.ev .callTokens) (.seq (.ev .insert) (.seq (.ev .remove) (.ev .returnOk))))) = false ∧
+    disciplineOk (.seq (.ev .guardActive) (.seq (.ev .insert) (.seq (.ev .foreign) (.seq (.ev .remove) (.ev .returnOk))))) = false ∧
+    disciplineOk (.seq (.ev .guardActive) (.seq (.ev .insert) (.seq (.loop (.branch (.ev .remove) .skip)) (.seq (.ev .remove) (.ev .returnOk))))) = false := by
+  decide
+
 end AsWritten
 
 end MechVerif.Include
